@@ -1,4 +1,4 @@
-import Ledger.Proofs.MachineBC5
+import Ledger.Proofs.MachineBC16
 
 /-!
 C27 — Compiling and running any input never crashes.
@@ -53,31 +53,32 @@ theorem error_leaves_no_postings_bytecode (s : Script) (inp : Input) (e : Err)
   rw [h]; rfl
 
 /-- Stage (f), full statement: the byte-code pipeline (`compile`, then the VM model `exec`
-    over the real opcodes) computes exactly what the big-step semantics `sem` computes.
-    Checked by evaluation on every generated program; PROVED for `CompileCovered`
-    programs (below); open for programs with `send` statements. -/
+    over the real opcodes) computes exactly what the big-step semantics `sem` computes —
+    result (postings, metadata, final tracked balances) or error. -/
 def exec_compile_eq_sem : Prop :=
   ∀ (s : Script) (p : Program) (inp : Input), compile s = .ok p →
     semBytecode Cfg.fixed s inp = sem Cfg.fixed s inp
 
-/-- Proved part of stage (f): for every program whose statements are `print`, `fail`,
-    `set_tx_meta`, `set_account_meta`, `save` (any variables — plain, `meta()`, `balance()` —
-    and any expressions), executing the compiled byte code with the VM model gives exactly
-    the result (postings, metadata, final tracked balances) or the error of `sem`.
-    (Expressions: `cExpr_ok`; resources are always resolvable: `resolveRes_exists`;
-    statements: `cStmt_ok`; declarations: `cVars_ok`.) -/
-theorem exec_compile_eq_sem_covered (s : Script) (hcov : CompileCovered s) (p : Program)
-    (hc : compile s = .ok p) (inp : Input) :
-    semBytecode Cfg.fixed s inp = sem Cfg.fixed s inp :=
-  semBytecode_eq_sem hcov hc inp
+/-- Stage (f) is PROVED for every program, every input: all statements (`print`, `fail`,
+    `set_tx_meta`, `set_account_meta`, `save`, `send`, `send [A *]`), all sources (account —
+    plain, bounded / unbounded overdraft, `@world` —, `max … from`, in-order lists, source
+    allotments), all destinations (account, in-order with `max … to/kept` and `remaining`,
+    allotments, `kept`), all declarations (plain, `meta()`, `balance()`), all expressions.
+    Proof: per-opcode stack lemmas (`opK_*`, Proofs/MachineBC7, 12, 13), a sequencing
+    framework for compile steps (`Sim`, MachineBC6), mutual structural recursion over sources
+    (`cSource_gen`, MachineBC12; `sim_allotsrc`, MachineBC15) and destinations
+    (`sim_dest_gen`, MachineBC14), statements (`cStmt_full`, MachineBC16), expressions and
+    resources (`cExpr_ok`, `resolveRes_exists`, MachineBC1–5). -/
+theorem exec_compile_eq_sem_holds : exec_compile_eq_sem :=
+  fun _ _ inp hc => semBytecode_eq_sem_full hc inp
 
-/-- Transfer to the byte-code level: a covered, compiled program never hits a typed-pop /
-    stack fault nor a panic of the VM model `exec`. -/
-theorem welltyped_no_stack_fault_bytecode (s : Script) (hcov : CompileCovered s) (p : Program)
+/-- Transfer to the byte-code level: a compiled program never hits a typed-pop / stack
+    fault nor a panic of the VM model `exec`, whatever the variables, balances, metadata. -/
+theorem welltyped_no_stack_fault_bytecode (s : Script) (p : Program)
     (hc : compile s = .ok p) (inp : Input) (w : String) :
     semBytecode Cfg.fixed s inp ≠ .error (.fault w) ∧ semBytecode Cfg.fixed s inp ≠ .error (.panic w) := by
   obtain ⟨ds, htc⟩ := compile_typechecks hc
-  rw [semBytecode_eq_sem hcov hc inp]
+  rw [semBytecode_eq_sem_full hc inp]
   exact sem_nf htc inp w
 
 /-- A failing run returns no result at all: no postings, no metadata (the adapter
@@ -158,11 +159,9 @@ theorem welltyped_no_stack_fault_prefix_false : ¬ welltyped_no_stack_fault Cfg.
 def covScript : Script :=
   { vars := [⟨.monetary, "m", .none⟩, ⟨.monetary, "b", .balance (.acct "a") (.asset "USD")⟩],
     stmts := [.setTxMeta "k" (.add (.var "m") (.var "b")), .save (.var "m") (.acct "a"),
-      .setAccountMeta (.acct "a") "n" (.sub (.num 7) (.num 9))] }
-example : CompileCovered covScript := by
-  intro st hst
-  simp only [covScript, List.mem_cons, List.mem_nil_iff, or_false] at hst
-  rcases hst with rfl | rfl | rfl <;> rfl
+      .setAccountMeta (.acct "a") "n" (.sub (.num 7) (.num 9)),
+      .send (.var "m") (.src (.account (.acct "a") (.upTo (.mon (.asset "USD") 5)))) (.account (.acct "x")),
+      .sendAll (.asset "USD") (.src (.account (.acct "x") .none)) (.account (.acct "world"))] }
 example : (compile covScript).toOption.isSome = true := by decide +kernel
 
 def bcScript : Script :=
